@@ -3,13 +3,16 @@ from checks_path import *  # noqa
 from seq_common import run_seq, replay_seq
 
 PROPERTY = 'C02'
-GEN = ['LogicVerify']
-PROPS = ['SalsaVerif.Props.C02', 'SalsaVerif.Props.GenLogicVerify']
+GEN = ['LogicVerify', 'LogicRuntime']
+PROPS = ['SalsaVerif.Props.C02', 'SalsaVerif.Props.GenLogicVerify', 'SalsaVerif.Props.GenLogicRuntime']
 EXPLANATION = ('`c02_sound`: for every well-formed program, any initial inputs and ANY list of get / set(value, keep|LOW|MEDIUM|HIGH|NEVER) / '
                'synthetic-write operations the Lean engine model returns the from-scratch value; `c02_shortcut_sound`, `c02_write_marks`, '
                '`c02_revs_antitone`, `c02_never_write_frozen` (+ results corollary). Model tied to salsa by exact value + event-sequence '
                'comparison on generated histories that draw durabilities from {keep, LOW, MEDIUM, HIGH, NEVER_CHANGE}; the oracle also checks '
-               'that every write to a NEVER_CHANGE field / NEVER_CHANGE synthetic write panics and that later results are unchanged.')
+               'that every write to a NEVER_CHANGE field / NEVER_CHANGE synthetic write panics and that later results are unchanged. '
+               'The write-side bookkeeping itself (report_tracked_write, last_changed_revision, new_revision, set_field, synthetic_write, the input '
+               'field comparison) is regenerated from the source on every run (Gen/LogicRuntime) and proved equal to `write` / `synth` / `lc` of '
+               'the Core, Core3, CoreSpec and CoreAcc models (Props/GenLogicRuntime).')
 ASSUMPTIONS = ['bodies are deterministic', 'multi-threading is out of scope of this property']
 
 def ties(ctx):
